@@ -302,10 +302,47 @@ def run_shard(spec, acc, ctx):
         for bad in ("", "sha3000", "HmacPRF", "crc32", "sha-1x"):
             expect_value_error(acc, "unknown-hash-name", lambda: hash_mod.get_hash_implementation(bad))
             expect_value_error(acc, "unknown-prf-digest", lambda: P(output_length=16, hash_func_name=bad or "nope"))
+        # every declared-length PRF (and hash objects of several output lengths) is built FIRST and stays alive while each
+        # one is used, in shuffled order: a declaration belongs to its object
+        live = {}
         for digest in PRF_DIGESTS:
             for kl in (0, 1, 16, 24, 32, 80):
                 for ml in (0, 1, 5, 32):
-                    f = P(output_length=24, key_length=kl, message_length=ml, hash_func_name=digest)
+                    try:
+                        live[(digest, kl, ml)] = P(output_length=24, key_length=kl, message_length=ml, hash_func_name=digest)
+                    except Exception as e:
+                        acc.violation("prf:declared-lengths:constructor-raised",
+                                      f"HmacPRF(output_length=24, key_length={kl}, message_length={ml}) raised "
+                                      f"{type(e).__name__}: {e}", {"digest": digest, "kl": kl, "ml": ml})
+        free = {d: P(output_length=20, hash_func_name=d) for d in PRF_DIGESTS}
+        hashes = {(d, n): hash_mod.get_hash_implementation(d)(output_length=n) for d in HASH_DIGESTS for n in (1, 20, 33, 100)}
+        order = list(live)
+        rng.shuffle(order)
+        for (digest, kl, ml) in order:
+            # objects without declared key / message lengths, next to the declared ones
+            k0, m0 = rng.randbytes(rng.choice([0, 3, 40])), rng.randbytes(rng.choice([0, 7, 60]))
+            acc.count("contract.undeclared-next-to-declared")
+            try:
+                if free[digest](k0, m0) != ref_p_hash(k0, m0, 20, digest):
+                    acc.violation("prf:undeclared-instance-wrong", "a PRF without declared lengths differs from the reference "
+                                                                   "while declared-length PRFs are alive", {"digest": digest})
+            except Exception as e:
+                acc.violation("prf:undeclared-instance-refuses",
+                              f"a PRF that declares no key / message length refused a {len(k0)}-byte key and a "
+                              f"{len(m0)}-byte message while declared-length PRFs are alive: {type(e).__name__}: {e}",
+                              {"digest": digest})
+            hd, hn = rng.choice(list(hashes))
+            mm = rng.randbytes(rng.choice([0, 9, 70]))
+            try:
+                if hashes[(hd, hn)](mm) != ref_hash(mm, hn, hd):
+                    acc.violation("hash:wrong-next-to-other-instances", f"{hd} with output_length={hn} differs from the "
+                                                                        f"reference while other instances are alive",
+                                  {"digest": hd, "n": hn})
+            except Exception as e:
+                acc.violation("hash:raised-next-to-other-instances", f"{type(e).__name__}: {e}", {"digest": hd, "n": hn})
+            if True:
+                if True:
+                    f = live[(digest, kl, ml)]
                     k, m = rng.randbytes(kl), rng.randbytes(ml)
                     acc.count("contract.positive")
                     if f(k, m) != ref_p_hash(k, m, 24, digest):
